@@ -100,6 +100,8 @@ type Opts struct {
 	IdxCompare bool  // x[i] == y style (index directly followed by '=')
 	FullWidth bool   // ＋－＊／
 	NullVars  bool   // reads of undefined variables
+	// AssignExprAll also uses item / attribute / slice assignments as operands (their value is the assigned value)
+	AssignExprAll bool
 	// SingleKeyDicts keeps every dict at one key at most, so that nothing a program can
 	// observe depends on Go map iteration order (toStr/repr/templates/keys() of a dict).
 	SingleKeyDicts bool
@@ -395,7 +397,7 @@ func (g *G) intExpr(d int) *Node {
 			if g.intn(2, "khArg") == 0 {
 				return MCall(a, m)
 			}
-			return MCall(a, m, Int(int64(1+g.intn(3, "khN"))))
+			return MCall(a, m, g.hostile(Int(int64(1+g.intn(3, "khN")))))
 		default:
 			return MCall(g.dictExpr(d-1), "len")
 		}
@@ -448,6 +450,27 @@ func (g *G) intExpr(d int) *Node {
 		return g.intLeaf()
 	default:
 		if g.O.SideFx && g.intn(3, "assignExpr") == 0 {
+			if g.O.AssignExprAll {
+				switch g.intn(4, "assignExprKind") {
+				case 0:
+					if arrs := g.Env.OfType(TArrI); len(arrs) > 0 {
+						v := arrs[g.intn(len(arrs), "aeArr")]
+						return N("setidx", Var(v.Name), g.indexFor(v.Len), g.intExpr(d-1))
+					}
+				case 1:
+					if ds := g.Env.OfType(TDict); len(ds) > 0 {
+						v := ds[g.intn(len(ds), "aeDict")]
+						return &Node{K: "setattr", S: v.Name, Names: []string{"x"}, Kids: []*Node{g.intExpr(d - 1)}}
+					}
+				case 2:
+					if arrs := g.Env.OfType(TArrI); len(arrs) > 0 {
+						v := arrs[g.intn(len(arrs), "aeArr")]
+						a, b := g.sliceBounds(3)
+						v.Len = -1
+						return N("idx", N("setslice", Var(v.Name), a, b, g.arrILit(1+g.intn(2, "aeLen"))), Int(0))
+					}
+				}
+			}
 			name := g.assignableInt()
 			if name != "" {
 				return Set(name, g.intExpr(d-1))
@@ -494,7 +517,19 @@ func (g *G) assignableInt() string {
 	return c[g.intn(len(c), "assignVar")]
 }
 
+// hostile replaces a well-typed operand by an expression of a random type with probability O.Hostile.
+func (g *G) hostile(n *Node) *Node {
+	if g.O.Hostile > 0 && g.chance(g.O.Hostile, "hostileOperand") {
+		return g.Expr(g.pickWant(), 1)
+	}
+	return n
+}
+
 func (g *G) indexFor(length int) *Node {
+	return g.hostile(g.indexFor0(length))
+}
+
+func (g *G) indexFor0(length int) *Node {
 	if length <= 0 {
 		return Int(int64(g.intn(3, "idxBlind")))
 	}
@@ -588,6 +623,39 @@ func (g *G) strExpr(d int) *Node {
 	}
 }
 
+// EndsInParenDice reports whether the printed form of n ends with a dice term whose last operand
+// is parenthesised (`2d(7)`): the only token sequence whose detail span includes trailing blanks.
+func EndsInParenDice(n *Node) bool {
+	for n != nil {
+		switch n.K {
+		case "dice":
+			for i := len(n.Kids) - 1; i >= 0; i-- {
+				if !n.Kids[i].IsNone() {
+					return n.Kids[i].K != "int"
+				}
+			}
+			return false
+		case "bin", "tern", "chain", "neg", "pos":
+			if len(n.Kids) == 0 {
+				return false
+			}
+			n = n.Kids[len(n.Kids)-1]
+		default:
+			return false
+		}
+	}
+	return false
+}
+
+// compBody keeps the body of a computed value from ending in such a dice term while C02-F09 is open
+// (blanks after it would be trimmed from the stored text but not from the term's detail span).
+func (g *G) compBody(e *Node) *Node {
+	if g.avoid("computed_dice_tail") && EndsInParenDice(e) {
+		return Bin("+", e, Int(0))
+	}
+	return e
+}
+
 // EndsInIndex reports whether the printed form of n ends with an index suffix `…[i]`
 // that a following `[a:b]` would touch (rightmost operand chain).
 func EndsInIndex(n *Node) bool {
@@ -633,6 +701,12 @@ func (g *G) sliceBounds(length int) (*Node, *Node) {
 	case 2:
 	default:
 		a, b = Int(int64(lo)), Int(int64(hi))
+	}
+	if !a.IsNone() {
+		a = g.hostile(a)
+	}
+	if !b.IsNone() {
+		b = g.hostile(b)
 	}
 	return a, b
 }
@@ -721,14 +795,14 @@ func (g *G) arrIExpr(d int) *Node {
 		if g.intn(40, "rangeHuge") == 0 {
 			hi = lo + 510 + int64(g.intn(4, "rangeEdge"))
 		}
-		return N("range", Int(lo), Int(hi))
+		return N("range", g.hostile(Int(lo)), g.hostile(Int(hi)))
 	case 3:
 		return Bin("+", g.arrIExpr(d-1), g.arrIExpr(d-1))
 	case 4:
 		if g.intn(2, "repSide") == 0 {
-			return Bin("*", g.arrILit(1+g.intn(3, "repLen")), Int(int64(g.intn(4, "rep"))))
+			return Bin("*", g.arrILit(1+g.intn(3, "repLen")), g.hostile(Int(int64(g.intn(4, "rep")))))
 		}
-		return Bin("*", Int(int64(g.intn(4, "rep"))), g.arrILit(1+g.intn(3, "repLen")))
+		return Bin("*", g.hostile(Int(int64(g.intn(4, "rep")))), g.arrILit(1+g.intn(3, "repLen")))
 	case 5:
 		a, b := g.sliceBounds(4)
 		return N("slice", g.sliceObj(g.arrIExpr(d-1), TArrI), a, b)
@@ -819,7 +893,7 @@ func (g *G) Dice(d int) *Node {
 	case "coc":
 		n := &Node{K: "coc", S: []string{"b", "p"}[g.intn(2, "cocBP")], Kids: []*Node{None()}}
 		if g.intn(2, "cocHasN") == 0 {
-			n.Kids[0] = Int(int64(g.intn(4, "cocN")))
+			n.Kids[0] = g.hostile(Int(int64(g.intn(4, "cocN"))))
 		}
 		return n
 	case "wod":
@@ -829,14 +903,19 @@ func (g *G) Dice(d int) *Node {
 		}
 		for i := g.intn(3, "wodMods"); i > 0; i-- {
 			m := []string{"m", "k", "q"}[g.intn(3, "wodMod")]
-			n.Kids = append(n.Kids, &Node{K: "dmod", S: m, Kids: []*Node{Int(int64(2 + g.intn(10, "wodModV")))}})
+			n.Kids = append(n.Kids, &Node{K: "dmod", S: m, Kids: []*Node{g.hostile(Int(int64(2 + g.intn(10, "wodModV"))))}})
 		}
+		if !n.Kids[0].IsNone() {
+			n.Kids[0] = g.hostile(n.Kids[0])
+		}
+		n.Kids[1] = g.hostile(n.Kids[1])
 		return n
 	case "dc":
 		n := &Node{K: "dc", Kids: []*Node{Int(int64(1 + g.intn(6, "dcPool"))), Int(int64(5 + g.intn(6, "dcCrit")))}}
 		if g.intn(3, "dcM") == 0 {
-			n.Kids = append(n.Kids, &Node{K: "dmod", S: "m", Kids: []*Node{Int(int64(6 + g.intn(8, "dcMV")))}})
+			n.Kids = append(n.Kids, &Node{K: "dmod", S: "m", Kids: []*Node{g.hostile(Int(int64(6 + g.intn(8, "dcMV"))))}})
 		}
+		n.Kids[0], n.Kids[1] = g.hostile(n.Kids[0]), g.hostile(n.Kids[1])
 		return n
 	}
 	n := &Node{K: "dice", Kids: []*Node{None(), None(), None(), None(), None()}}
@@ -872,6 +951,13 @@ func (g *G) Dice(d int) *Node {
 	}
 	if g.O.DefaultSides && g.intn(4, "diceNoSides") == 0 {
 		g.dropSides(n)
+	}
+	if g.O.Hostile > 0 {
+		for i := range n.Kids {
+			if !n.Kids[i].IsNone() {
+				n.Kids[i] = g.hostile(n.Kids[i])
+			}
+		}
 	}
 	return n
 }
@@ -1191,7 +1277,7 @@ func (g *G) computedStmt(d int) []*Node {
 	// the body reads caller variables at evaluation time; keep it an int expression over existing vars
 	saveSide := g.O.SideFx
 	g.O.SideFx = false
-	e := g.intExpr(d - 1)
+	e := g.compBody(g.intExpr(d - 1))
 	g.O.SideFx = saveSide
 	g.Env.Put(&VarInfo{Name: name, T: TComp, Ret: TInt, Len: -1})
 	return []*Node{&Node{K: "setc", S: name, Kids: []*Node{e}}}
